@@ -15,10 +15,12 @@ From Stab.proofs Require Import ConcP.
 Theorem C11_source_shape :
   conc_shape_ok = true /\ mutex_claim_steals = true /\ choice_claim_steals = false /\ mutex_requeue_has_budget = false /\
   (forall st, mutex_blocks st = status_eqb st RUNNING) /\ (forall st, choice_blocks st = negb (status_eqb st NOT_STARTED)) /\
-  (forall st, sibling_cancelled st = status_eqb st NOT_STARTED).
+  (forall st, sibling_cancelled st = status_eqb st NOT_STARTED) /\
+  (* the fast-path sibling scan + self-cancel only for a NOT_STARTED stage (a RUNNING claimant re-planned after a crash skips it) *)
+  (forall st, choice_fast_guard st = status_eqb st NOT_STARTED).
 Proof.
   exact (conj eq_refl (conj eq_refl (conj eq_refl (conj eq_refl
-        (conj (fun st => eq_refl) (conj (fun st => eq_refl) (fun st => eq_refl))))))).
+        (conj (fun st => eq_refl) (conj (fun st => eq_refl) (conj (fun st => eq_refl) (fun st => eq_refl)))))))).
 Qed.
 
 (* the statements of AtomicTransaction.acquire_claim (INSERT OR IGNORE; rowcount; re-read; vanished-row retry; same
